@@ -1,8 +1,67 @@
-(* C10 - conversions (theorems are added from Proofs/ConvertProofs.v). *)
+(* C10 - conversions between representations preserve the incidence relation.
+   Model/Convert.v gives to_* (read off the tables) and from_* (the calls the implementation makes
+   on an empty hypergraph).  The theorems are round trips from_X (to_X s) for every state s with the
+   invariant Inv (every state reachable by an admissible history, C01) and without the label None
+   (which every mutating method rejects; NoNone is a hypothesis here, as in C07).  The remaining
+   representations (incidence matrix, bipartite graph, HIF and standard dicts, the directed and
+   simplicial classes) are tied to the code by the correspondence and decided by the oracle. *)
 From Coq Require Import String ZArith List Bool.
-From XV Require Import Base.Label Base.LSet Base.ODict Base.Attr Base.Outcome Model.Hypergraph Model.HgCheck Model.Convert.
+From XV Require Import Base.Label Base.LSet Base.ODict Base.Attr Base.Outcome Model.Hypergraph Model.HgCheck Model.Convert
+  Proofs.HgViews Proofs.HgInv Proofs.HgStep Proofs.HgErrors Proofs.DerivedProofs Proofs.ConvertProofs.
 Import ListNotations.
 Open Scope Z_scope.
+
+(* hyperedge list: same member sets in the same order (the representation carries no labels) *)
+Theorem C10_hyperedge_list_roundtrip : forall s, Inv s -> NoNone s ->
+  let r := from_hyperedge_list (to_hyperedge_list s) in
+  let t := st_of r in
+  out_of r = Ok /\ Inv t /\
+  ekeys t = map (fun j => LInt (Z.of_nat j)) (seq 0 (length (h_edge s))) /\
+  (forall j, (j < length (h_edge s))%nat -> seteq (mems t (LInt (Z.of_nat j))) (snd (nth j (h_edge s) (LNone, [])))) /\
+  (forall x, In x (nkeys t) <-> exists e, In x (mems s e)).
+Proof. exact hyperedge_list_roundtrip. Qed.
+Print Assumptions C10_hyperedge_list_roundtrip.
+
+(* hyperedge dict: same edge labels, same order, same members; the nodes are those in some edge *)
+Theorem C10_hyperedge_dict_roundtrip : forall s, Inv s -> NoNone s ->
+  let r := from_hyperedge_dict (to_hyperedge_dict s) in
+  let t := st_of r in
+  out_of r = Ok /\ Inv t /\ ekeys t = ekeys s /\
+  (forall e, In e (ekeys s) -> seteq (mems t e) (mems s e)) /\
+  (forall x, In x (nkeys t) <-> exists e, In x (mems s e)).
+Proof. exact hyperedge_dict_roundtrip. Qed.
+Print Assumptions C10_hyperedge_dict_roundtrip.
+
+(* bipartite edge list and two-column dataframe: exactly the same incidences under the same labels *)
+Theorem C10_bipartite_edgelist_roundtrip : forall s, Inv s -> NoNone s -> to_bipartite_edgelist s <> [] ->
+  let r := from_bipartite_edgelist (to_bipartite_edgelist s) in
+  let t := st_of r in
+  out_of r = Ok /\ forall n e, In n (mems t e) <-> In n (mems s e).
+Proof. exact bipartite_edgelist_roundtrip. Qed.
+Print Assumptions C10_bipartite_edgelist_roundtrip.
+
+Theorem C10_dataframe_roundtrip : forall s, Inv s -> NoNone s ->
+  let r := from_dataframe (to_dataframe s) in
+  let t := st_of r in
+  out_of r = Ok /\ forall n e, In n (mems t e) <-> In n (mems s e).
+Proof. exact dataframe_roundtrip. Qed.
+Print Assumptions C10_dataframe_roundtrip.
+
+(* what from_* builds from ANY list of (node, edge) pairs: exactly the listed incidences *)
+Theorem C10_pairs_build_exactly : forall l,
+  (forall p, In p l -> fst p <> LNone /\ snd p <> LNone) ->
+  let r := add_pairs l hg_empty in
+  out_of r = Ok /\ forall y x, In x (mems (st_of r) y) <-> In (x, y) l.
+Proof.
+  intros l H. destruct (add_pairs_effect l hg_empty H) as [O1 M1]. split; [exact O1|].
+  intros y x. rewrite M1. split; [intros [A|[]]; exact A|auto].
+Qed.
+Print Assumptions C10_pairs_build_exactly.
+
+(* the premises hold at every state reachable by an admissible history *)
+Theorem C10_reachable_Inv : forall ops, admissible_history hg_empty ops -> Inv (run ops hg_empty).
+Proof. intros ops A. apply run_Inv; [exact A|apply Inv_empty]. Qed.
+Print Assumptions C10_reachable_Inv.
 
 Example C10_nonvacuous :
   let s := run [OAddEdgesFrom (EB1 [[LInt 1; LInt 2; LInt 3]; []; [LInt 3; LInt 4]]) []; OAddNode (LInt 9) [("c"%string, AInt 1)]] hg_empty in
